@@ -461,7 +461,7 @@ func c35Jobs(t *testing.T, r *verifkit.Run, rs gen.RuneSet) []c35Job {
 
 func TestVerifC35Parse(t *testing.T) {
 	r := verifkit.Start(t, "C35", "parse")
-	defer r.Finish("crash box (child process, index logged before each call) over sql.Parse: (1) grammar-generated statements of every kind/clause, (2) the same with runes whose lower-case form has a different UTF-8 length (both directions, set computed from the unicode tables) placed before/inside/after/instead of keywords, identifiers and literals, (3) noise (bytes, token soup, truncations, invalid UTF-8, repeated clause keywords), (4) grammar-generated statements whose identifiers (topics, aliases, columns, AS names, GROUP BY / ORDER BY columns, JSON path members) contain every keyword of the generator's list as a proper prefix, suffix or infix of a longer word (fromage, xlast, re_scan_2, random letter case) or, rarely, as a whole word set off by '.'/'-' (x.from, last-2: the parser then reads the keyword inside the name as a clause word, so these statements and their case variants are watched for crashes only), half of them cut right after an identifier that follows FROM so that the statement / clause text ENDS in an identifier whose suffix spells a keyword (optionally followed by ';'), (5) texts in which a keyword token is replaced by a word that contains it, or which end in a dangling word glued to a one- or two-word keyword. Violation = Parse panics or the process dies. Metamorphic: 3 random ASCII-case variants of the keyword tokens of each generated statement (ASCII, with non-ASCII identifiers/literals, and with keyword-containing identifiers, which are never case-changed) must give the same error status and, when valid, a Query equal field by field (SelectColumn.Raw, the echoed input text, compared ASCII-case-insensitively). non-trivial = a statement that reached the select/explain/show/describe code with a keyword-case variant that differs from the base, or a hostile/noise text that got past statement dispatch",
+	defer r.Finish("crash box (child process, index logged before each call) over sql.Parse: (1) grammar-generated statements of every kind/clause, (2) the same with runes whose lower-case form has a different UTF-8 length (both directions, set computed from the unicode tables) placed before/inside/after/instead of keywords, identifiers and literals, (3) noise (bytes, token soup, truncations, invalid UTF-8, repeated clause keywords), (4) grammar-generated statements whose identifiers (topics, aliases, columns, AS names, GROUP BY / ORDER BY columns, JSON path members) contain every keyword of the generator's list as a proper prefix, suffix or infix of a longer word (fromage, xlast, re_scan_2, random letter case) or, rarely, as a whole word set off by '.'/'-' (x.from, last-2: the parser then reads the keyword inside the name as a clause word, so these statements and their case variants are watched for crashes only), half of them cut right after an identifier that follows FROM so that the statement / clause text ENDS in an identifier whose suffix spells a keyword (optionally followed by ';'), (5) texts in which a keyword token is replaced by a word that contains it, or which end in a dangling word glued to a one- or two-word keyword, (6) grammar-generated statements of every kind (show topics / show partitions / describe / explain / select, kinds in turn) whose white space between tokens - after every keyword, identifier, literal and punctuation mark, in front of and behind the statement, also where the statement had none (count<sep>() - is rewritten with runes of unicode.IsSpace outside the ASCII blanks (\\v, U+0085, U+00A0, U+1680, U+2000-200A, U+2028, U+2029, U+202F, U+205F, U+3000: set computed from the unicode tables; \\f and \\r too) and, every third statement, also with near-space runes that unicode.IsSpace rejects (zero-width space/joiners, BOM, soft hyphen, word joiner, ASCII FS/GS/RS/US, fillers, ...), in five modes (one separator / all / exactly those after a keyword / half of them / drawn from all of unicode.IsSpace), separators of 1-3 runes with the exotic rune first or after a plain blank, each with one keyword-case variant; every keyword of the generator's list is seen directly followed by such a rune; (7) white-space noise: token soup with such separators, spaced statements cut at (or inside) a rune, a keyword plus such a separator repeated up to 200 (thorough 4000) times, blank-only texts, such a rune inside a token, dangling clause keywords. Families 6 and 7 are watched for crashes only (whether such a rune separates tokens is the parser's decision). Violation = Parse panics, the process dies (stack overflow, fatal error, live heap above 3 GiB = out of memory) or Parse does not return. A death is attributed to the index logged before the call and re-run alone in a fresh process (a death that the runtime did not report and that does not repeat is inconclusive); a child without progress for 30 s of its CPU time (or 150 s) is killed and the job re-run alone: a hang only if that process burns 60 s of CPU time on the single job. Metamorphic: 3 random ASCII-case variants of the keyword tokens of each generated statement (ASCII, with non-ASCII identifiers/literals, and with keyword-containing identifiers, which are never case-changed) must give the same error status and, when valid, a Query equal field by field (SelectColumn.Raw, the echoed input text, compared ASCII-case-insensitively). non-trivial = a statement that reached the select/explain/show/describe code with a keyword-case variant that differs from the base, or a hostile/noise text that got past statement dispatch",
 		"a panic recovered inside the child counts as a crash of Parse (server.go has no recover around it: see leg server)",
 		"keywords = the dialect's clause words and SQL function names (count/min/max/sum/avg/json_*); identifiers and literals are never case-changed",
 		"violation classes ending in _lowercase_length_shift are assigned by a counterfactual: the same text with every length-changing rune replaced by a same-length stable rune behaves correctly")
